@@ -68,42 +68,65 @@ def orientation_rule(F, rep):
         rep.missing_anchor(rid, name)
         return
     fnames = [f["name"] for f in adt["variants"][0]["fields"]]
-    blocks = b["blocks"]
+    memo = {}
 
-    def effects(bl):
-        fs, ret = set(), None
-        for st in bl["s"]:
-            if st[0] != "A":
-                continue
-            d = st[1]
-            if len(d) >= 3 and d[0] == 1 and d[1] == "*" and isinstance(d[2], list) and d[2][0] == ".":
-                fs.add(d[2][1])
-            if d == [0] and st[2][0] == "Agg" and isinstance(st[2][1], list) and st[2][1][0] == "adt" and st[2][1][1].endswith("result::Result"):
-                ret = st[2][1][-1]
-        t = bl["t"]
-        if t[0] == "call":
-            d = t[1].get("dest")
-            if d and len(d) >= 3 and d[0] == 1 and d[1] == "*" and isinstance(d[2], list) and d[2][0] == ".":
-                fs.add(d[2][1])
-            if d == [0]:
-                ret = "Err" if (t[1]["f"].get("p") or "").endswith("from_residual") else "?"
-        return fs, ret
-    states = {0: {(frozenset(), None)}}
-    work = [0]
-    oks = set()
-    while work:
-        x = work.pop()
-        fs, ret = effects(blocks[x])
-        cur = {(s | fs, ret if ret is not None else r) for s, r in states[x]}
-        t = blocks[x]["t"]
-        if t[0] == "ret":
-            oks |= {s for s, r in cur if r in ("Ok", "?")}
-        for y in mirutil.normal_successors(t):
-            old = states.get(y, set())
-            new = old | cur
-            if new != old:
-                states[y] = new
-                work.append(y)
+    def ok_sets(fn, depth=0):
+        """the sets of Recognizer fields assigned along the paths of `fn` that return Ok (or a plain value); methods of the recognizer called on self contribute
+        what their own successful paths assign (a block of assignments extracted into a helper is the same block)"""
+        if fn in memo:
+            return memo[fn]
+        memo[fn] = {frozenset()}          # recursion: nothing assigned
+        bb = F.bodies.get(fn)
+        if bb is None or depth > 4:
+            return memo[fn]
+        blocks = bb["blocks"]
+
+        def effects(bl):
+            fs, ret, callee_sets = set(), None, None
+            for st in bl["s"]:
+                if st[0] != "A":
+                    continue
+                d = st[1]
+                if len(d) >= 3 and d[0] == 1 and d[1] == "*" and isinstance(d[2], list) and d[2][0] == ".":
+                    fs.add(d[2][1])
+                if d == [0] and st[2][0] == "Agg" and isinstance(st[2][1], list) and st[2][1][0] == "adt" and st[2][1][1].endswith("result::Result"):
+                    ret = st[2][1][-1]
+            t = bl["t"]
+            if t[0] == "call":
+                d = t[1].get("dest")
+                if d and len(d) >= 3 and d[0] == 1 and d[1] == "*" and isinstance(d[2], list) and d[2][0] == ".":
+                    fs.add(d[2][1])
+                if d == [0]:
+                    ret = "Err" if (t[1]["f"].get("p") or "").endswith("from_residual") else "?"
+                p_ = t[1]["f"].get("p") or ""
+                if p_.startswith("dmntk_recognizer::recognizer::Recognizer::") and p_ in F.bodies and p_ != fn and t[1].get("args"):
+                    cb = F.bodies[p_]
+                    if cb.get("argc") and "Recognizer" in F.ty(cb, cb["locals"][1]):
+                        callee_sets = ok_sets(p_, depth + 1)
+            return fs, ret, callee_sets
+        states = {0: {(frozenset(), None)}}
+        work = [0]
+        oks = set()
+        while work:
+            x = work.pop()
+            fs, ret, cs = effects(blocks[x])
+            cur = {(s_ | fs, ret if ret is not None else r) for s_, r in states[x]}
+            if cs:
+                cur = {(s_ | c_, r) for s_, r in cur for c_ in cs}
+            t = blocks[x]["t"]
+            if t[0] == "ret":
+                oks |= {s_ for s_, r in cur if r in ("Ok", "?", None)}
+            for y in mirutil.normal_successors(t):
+                old = states.get(y, set())
+                new_ = old | cur
+                if new_ != old:
+                    states[y] = new_
+                    work.append(y)
+        memo[fn] = oks or {frozenset()}
+        return memo[fn]
+    oks = {s_ for s_ in ok_sets(name)}
+    if oks == {frozenset()}:
+        oks = set()
     # fields assigned unconditionally before the branching (placements) are in every set; compare the sets
     if not oks:
         rep.missing_anchor(rid, "an Ok return in recognize_orientation")
